@@ -176,5 +176,5 @@ func runC19b(c c19bCase, o *vfutil.Obs) *vfutil.Failure {
 }
 
 func TestVerifC19b(t *testing.T) {
-	vfutil.Run(t, vfutil.Spec[c19bCase]{ID: "C19", Gen: genC19b, Run: runC19b})
+	vfutil.Run(t, vfutil.Spec[c19bCase]{ID: "C19", Gen: genC19b, Run: runC19b, Journal: true})
 }
